@@ -7,11 +7,11 @@ CONSTANTS
   PatU <- MC_PatU
   ParentU <- MC_ParentU
   Pats_ = {"a", "a/?", "a/#", "#", "?/b", "a/#/b"}
-  Tids_ = {1, 2}
+  Tids_ = {1}
   Flags_ = {"ff", "tf", "ft", "tt"}
   MaxVer = 1
   MaxAcq = 0
-  MaxSubs = 2
+  MaxSubs = 1
   NeedConnect = FALSE
 CONSTRAINT Bound
 INVARIANTS C01Inv C03Fold CleanTrees NeverDown EdgeInv
